@@ -737,7 +737,7 @@ def run(ctx):
         'E2/E3 (lsm-tree reads at an instant), F4 (BTreeMap/BTreeSet as mathematical maps/sets; BTreeSet::range panics iff start > end or start == end both excluded)',
         'keys are compared through an abstract injective order (8-bit positions); byte-string clones and conversions keep identity',
         'commit path: the commit closure and has_conflict are opaque calls with symbolic results when checking with_commit; has_conflict is checked separately against its specification',
-        'bounds: ≤ 2 recorded reads × ≤ 2 written keys × 1 keyspace id pair, and 1 read × 1 key in each of 2 optional keyspace entries per table (ids symbolic); 2 registered commits in the oracle',
+        'bounds: ≤ 2 recorded reads × ≤ 2 written keys × 1 keyspace id pair, and 1 read × 1–2 keys in each of 2 optional keyspace entries per table (ids symbolic; thorough: 2 reads × 1 key); 2 registered commits in the oracle',
     ]
     for m in POINT_READS + SCAN_READS + RMW:
         check_read_tracked(ctx, m)
@@ -750,6 +750,7 @@ def run(ctx):
         check_has_conflict(ctx, nr, nk)
     # several keyspaces in both tables (a transaction that read in one keyspace and another that wrote in a different one, in either id order)
     check_has_conflict(ctx, 1, 1, n_ks=2)
+    check_has_conflict(ctx, 1, 2, n_ks=2)
     if ctx.tier != 'quick':
         check_has_conflict(ctx, 2, 1, n_ks=2)
     check_mark_range(ctx)
